@@ -11,6 +11,7 @@ directive lines starting with `//@`:
   //@   loop_start <n> / loop_end <n>   (text inserted as first / last statements of loop n's body)
   //@   closure <n> [params=<text up to `ret=` or end>] [ret=<text>]
   //@   before <anchor text>      /  //@ after <anchor text>   (+ following lines = inserted text)
+  //@   after_stmt <anchor>       (after the `;` ending the statement that starts at anchor)
   //@   rewrite <old> ==> <new>
   //@   tail <name> <anchor>      block-tail expression E starting at anchor -> `let name = E; <text> name`
   //@   body_start
@@ -93,7 +94,7 @@ def build(template_path, out_path, canary=False, repo=None, mutate=None):
                             mm = re.match(r"(\d+)(?:\s+params=(.*?))?(?:\s+ret=(.*))?$", arg)
                             cur = {"op": "closure", "n": int(mm.group(1)), "params": mm.group(2),
                                    "ret": mm.group(3), "text": ""}
-                        elif op in ("before", "after"):
+                        elif op in ("before", "after", "after_stmt"):
                             cur = {"op": op, "anchor": arg, "text": ""}
                         elif op == "tail":
                             nm, _, anc = arg.partition(" ")
